@@ -120,6 +120,11 @@ def after_gamma(ex, ctx, env):
 
 
 def run(pr, repo):
+    task_rotation(pr, repo)
+    bounded(pr)
+
+
+def task_rotation(pr, repo):
     ex = Executor(repo)
     fi = repo.func(FN)
     V = repo.cls('propka.vector_algebra.Vector')
@@ -203,7 +208,6 @@ def run(pr, repo):
     pr.assumptions.append('the two pure lemmas are used as instantiated hypotheses of the final obligation only after '
                           'being proved for all reals in the same run')
     pr.samples = ['path decisions %s -> %s' % (c.taken, k) for c, k, _ in paths[:6]]
-    bounded(pr)
 
 
 def bounded(pr):
